@@ -21,10 +21,13 @@ fn c13(c: &vsexp::Sexp) -> vsexp::Sexp {
     // name them in the case; every other op gets a deterministic pair derived from the case.
     let h = c.to_string().len();
     looprt::FRAME.with(|f| f.set((h % 10, (h / 10) % 10)));
+    looprt::RECHUNK.with(|r| r.set((0, 0)));
     match c.at(0).num() {
         0..=6 | 16 => errs::run(c),
         7..=9 => glue::run(c),
-        10..=15 | 17 | 18 => fns::run(c),
+        10..=15 | 17 | 18 | 20 | 21 => fns::run(c),
+        // a history: several calls on this thread, one after the other
+        19 => vsexp::Lst(c.list()[1..].iter().map(c13).collect()),
         _ => vsexp::Lst(vec![]),
     }
 }
